@@ -1,1 +1,8 @@
+import TLVerif.Generated.PrimFacts
+import TLVerif.Prim.Driver
 import TLVerif.Prim.TL1String
+import TLVerif.Prim.TL1StringLemmas
+import TLVerif.Prim.TL2Size
+import TLVerif.Prim.TL2SizeLemmas
+import TLVerif.Props.C33
+import TLVerif.Util.Hex
